@@ -169,7 +169,7 @@ PROPS["C06"] = {
     "id": "C06",
     "lean_modules": ["JT.Props.C06"],
     "extractors": ["replytable", "concshape"],
-    "functional_ops": ["convcut"],
+    "functional_ops": ["convcut", "convpar"],
     "rule": ("conversations of 1..6 writes x 1..3 frames on one connection against a real in-process server (default configuration) over a localhost socket: every 0x0xxx/0x1xxx id registered by default plus unsupported ids, both header versions, "
              "random phones and request serials (0, 65535, 7d/7e...), 0x0102 with matching / non-matching / NUL-terminated / 240..255-byte codes and too-short 2019 bodies, 0x0801 with bodies below and above 36 bytes, 0x1211/0x1212 well- and malformed, "
              "interleaved sub-packaged messages (packet 1 first, duplicates); the harness waits for the prescribed number of replies after each write so that read boundaries are deterministic; one long conversation of 1200 heartbeats (thorough: 66000, beyond the serial wrap). "
